@@ -26,6 +26,25 @@ def main():
                 elif isinstance(n, ast.ClassDef):
                     visit(n.body, f'{prefix}{n.name}.')
         visit(tree.body, '')
+        # module-level names the rules may refer to (tables, constants); anything else at module level is new
+        names = {}
+        for n in tree.body:
+            targets = []
+            if isinstance(n, ast.Assign):
+                targets = n.targets
+            elif isinstance(n, (ast.AnnAssign, ast.AugAssign)):
+                targets = [n.target]
+            for t in targets:
+                for x in ast.walk(t):
+                    if isinstance(x, ast.Name):
+                        names[x.id] = x.id
+            if isinstance(n, (ast.Import, ast.ImportFrom)):
+                for a in n.names:
+                    nm = (a.asname or a.name).split('.')[0]
+                    names[nm] = nm
+            if isinstance(n, (ast.FunctionDef, ast.AsyncFunctionDef, ast.ClassDef)):
+                names[n.name] = n.name
+        out[f'{rel}::@module'] = names
     os.makedirs(os.path.join(ROOT, 'spec'), exist_ok=True)
     with open(os.path.join(ROOT, 'spec', 'roles.json'), 'w') as f:
         json.dump(out, f, indent=0, sort_keys=True)
